@@ -20,6 +20,7 @@ namespace Givaro {
     template<class Domain>
     inline typename Poly1Dom<Domain,Dense>::Rep& Poly1Dom<Domain,Dense>::power_compose(Rep& W, const Rep& P, uint64_t b) const
     {
+        if (&W == &P) { Rep T; power_compose(T, P, b); return assign(W, T); } // W may be the same object as P
         Degree dp; degree(dp, P);
         if (dp == Degree::deginfty) return assign(W, zero);
         Type_t lc;
